@@ -25,7 +25,7 @@ type model struct {
 	cands    map[string]prig.Cand
 	joinWhy  map[string]string // target -> "" if some join operation makes it eligible, else best failing reason
 	leaveOK  map[string]bool   // target -> a disjoin signed with the member's registered key exists
-	expelOK  map[string]bool   // target -> an expel operation is carried by the INIT voteproof
+	expelOK  map[string]bool   // target -> an expel operation is part of the block
 	joinOps  int
 	eligible int
 	policyOK bool // some policy operation carries >= threshold distinct member signatures
@@ -129,6 +129,25 @@ type outcome struct {
 	Height        int64
 	Nodes         []string // "addr|pub|start" in state order
 	Err           string
+	// what the block writer was told per operation, in pre-processing order:
+	// "<case operation index>:<kind>:<target>:<in state>:<reason>" (index >= len(Ops): expel of the voteproof)
+	Verdicts []string
+	applied  map[int]bool // case operation index -> recorded as in state
+}
+
+// verdictCanon: the set of operations recorded as in state.
+func (o outcome) verdictCanon() string {
+	var idx []int
+
+	for i, ok := range o.applied {
+		if ok {
+			idx = append(idx, i)
+		}
+	}
+
+	sort.Ints(idx)
+
+	return fmt.Sprint(idx)
 }
 
 func (o outcome) canon() string {
@@ -164,9 +183,58 @@ func process(b *prig.Block, workers int64) outcome {
 
 	_, policyChanged := states[isaac.NetworkPolicyStateKey]
 
+	out := outcome{PolicyChanged: policyChanged, applied: map[int]bool{}}
+
+	_, nodes, _, _ := res.Writer.Snapshot()
+	c := b.Case
+
+	// the voteproof may reorder its expels: operations are identified by fact hash
+	byfact := map[string]int{}
+
+	for i := range c.Ops {
+		byfact[c.Ops[i].Fact().Hash().String()] = i
+	}
+
+	for i := range c.Expels {
+		byfact[c.Expels[i].Fact().Hash().String()] = len(c.Ops) + i
+	}
+
+	for pos := 0; pos < len(b.Order)+len(b.EOrder); pos++ {
+		v, found := nodes[uint64(pos)]
+		if !found {
+			continue
+		}
+
+		f := strings.SplitN(v, "|", 3)
+
+		i, known := byfact[f[0]]
+		if !known {
+			out.Verdicts = append(out.Verdicts, fmt.Sprintf("?:unknown-fact-%s::%s:%s", f[0], f[1], f[2]))
+
+			continue
+		}
+
+		meta := prig.OpMeta{}
+		if i < len(c.Ops) {
+			meta = c.Metas[i]
+		} else {
+			meta = c.EMetas[i-len(c.Ops)]
+		}
+
+		out.applied[i] = out.applied[i] || f[1] == "true"
+		out.Verdicts = append(out.Verdicts, fmt.Sprintf("%d:%s:%s:%s:%s", i, meta.Kind, meta.Target, f[1], f[2]))
+	}
+
+	return readSuffrage(out, states)
+}
+
+// readSuffrage fills the resulting suffrage from the states the writer stored.
+func readSuffrage(out outcome, states map[string]base.State) outcome {
+	_, out.PolicyChanged = states[isaac.NetworkPolicyStateKey]
+
 	st, found := states[isaac.SuffrageStateKey]
 	if !found {
-		return outcome{PolicyChanged: policyChanged}
+		return out
 	}
 
 	v, ok := st.Value().(base.SuffrageNodesStateValue)
@@ -174,7 +242,8 @@ func process(b *prig.Block, workers int64) outcome {
 		return outcome{Err: fmt.Sprintf("suffrage state value is %T", st.Value())}
 	}
 
-	out := outcome{Changed: true, Height: int64(v.Height()), PolicyChanged: policyChanged}
+	out.Changed, out.Height = true, int64(v.Height())
+
 	for _, n := range v.Nodes() {
 		out.Nodes = append(out.Nodes, fmt.Sprintf("%s|%s|%d", n.Address(), n.Publickey(), n.Start()))
 	}
@@ -182,15 +251,214 @@ func process(b *prig.Block, workers int64) outcome {
 	return out
 }
 
+type result struct {
+	c          *prig.Case
+	m          *model
+	outs       []outcome
+	perms      [][]int
+	how        []string // what drove the processors in run k
+	exhaustive bool     // every permutation of the operations was run
+	classes    []string // mixed blocks: join sign classes
+}
+
+type tally struct {
+	changed bool
+	joins   int
+	leaves  int
+}
+
+// judge applies the statement to every processed permutation of one case. sfx
+// is appended to the violation signatures (which phase produced the case).
+func judge(r *vlib.Run, sfx string, i int, res *result) tally {
+	var tl tally
+
+	c, m := res.c, res.m
+
+	for k, o := range res.outs {
+		r.Count("blocks_processed", 1)
+
+		witness := map[string]any{
+			"case": i, "permutation": res.perms[k], "driven_by": res.how[k], "height": m.height, "threshold": float64(m.t10) / 10,
+			"members": m.members, "operations": c.Metas, "expels": c.EMetas, "result": o,
+		}
+
+		if o.PolicyChanged {
+			r.Count("blocks_policy_changed", 1)
+
+			if !m.policyOK { // outside the statement of C17 (suffrage only): reported, not judged
+				r.Count("info_policy_changed_below_threshold_of_distinct_members", 1)
+			}
+		}
+
+		switch {
+		case o.Err != "":
+			r.Count("blocks_ending_in_error", 1)
+			r.SetAdd("error_kinds", o.Err)
+
+			continue
+		case !o.Changed:
+			r.Count("blocks_suffrage_unchanged", 1)
+		default:
+			r.Count("blocks_suffrage_changed", 1)
+		}
+
+		// the resulting suffrage: the new state value, or the current one if the block left it alone
+		newm := map[string]string{}
+
+		if o.Changed {
+			tl.changed = true
+
+			// (1) unique members, (2) height + 1
+			for _, n := range o.Nodes {
+				f := strings.Split(n, "|")
+				if _, dup := newm[f[0]]; dup {
+					r.Violation("suffrage:duplicate-member"+sfx, fmt.Sprintf("case %d: member %s twice in the resulting suffrage", i, f[0]), witness)
+				}
+
+				newm[f[0]] = f[1]
+			}
+
+			if o.Height != m.sufh+1 {
+				r.Violation("suffrage:height-not-previous-plus-one"+sfx,
+					fmt.Sprintf("case %d: suffrage height %d after %d", i, o.Height, m.sufh), witness)
+			}
+
+			if len(newm) == 0 {
+				r.Count("blocks_with_empty_resulting_suffrage", 1)
+			}
+		} else {
+			for a, pub := range m.members {
+				newm[a] = pub
+			}
+		}
+
+		// (1b) no node both taken out / put in by an operation recorded as applied and
+		// absent / present the other way round in the result
+		for idx, ok := range o.applied {
+			if !ok {
+				continue
+			}
+
+			meta := prig.OpMeta{}
+			if idx < len(c.Metas) {
+				meta = c.Metas[idx]
+			} else {
+				meta = c.EMetas[idx-len(c.Metas)]
+			}
+
+			_, present := newm[meta.Target]
+
+			switch {
+			case (meta.Kind == "expel" || meta.Kind == "disjoin") && present:
+				r.Violation("suffrage:member-removed-by-applied-"+meta.Kind+"-still-present"+sfx,
+					fmt.Sprintf("case %d: %s of %s is recorded as applied, but the node is in the resulting suffrage", i, meta.Kind, meta.Target), witness)
+			case meta.Kind == "join" && !present:
+				r.Violation("suffrage:node-of-applied-join-absent"+sfx,
+					fmt.Sprintf("case %d: join of %s is recorded as applied, but the node is not in the resulting suffrage", i, meta.Target), witness)
+			}
+		}
+
+		if !o.Changed {
+			continue
+		}
+
+		// (3) who joined
+		for a, pub := range newm {
+			if _, was := m.members[a]; was {
+				if pub != m.members[a] {
+					r.Count("kept_member_key_changed", 1)
+				}
+
+				continue
+			}
+
+			tl.joins++
+
+			r.Count("joined_nodes", 1)
+
+			why, found := m.joinWhy[a]
+			if !found {
+				why = "no-join-operation"
+			}
+
+			if why != "" {
+				r.Violation("join:"+why+sfx, fmt.Sprintf("case %d: %s joined the suffrage although %s (threshold %.1f of the %d current members)",
+					i, a, why, float64(m.t10)/10, m.n), witness)
+
+				continue
+			}
+
+			if cand := m.cands[a]; cand.Priv.Publickey().String() != pub {
+				r.Violation("join:member-key-differs-from-registered-candidate-key"+sfx,
+					fmt.Sprintf("case %d: %s joined with key %s, registered %s", i, a, pub, cand.Priv.Publickey()), witness)
+			}
+		}
+
+		// (4) who left
+		for a := range m.members {
+			if _, still := newm[a]; still {
+				continue
+			}
+
+			tl.leaves++
+
+			switch {
+			case m.leaveOK[a] && m.expelOK[a]:
+				r.Count("removed_by_disjoin_and_expel", 1)
+			case m.leaveOK[a]:
+				r.Count("removed_by_disjoin", 1)
+			case m.expelOK[a]:
+				r.Count("removed_by_expel", 1)
+			default:
+				r.Violation("leave:removed-without-own-disjoin-or-expel"+sfx,
+					fmt.Sprintf("case %d: member %s left the suffrage without a disjoin signed by its key or an expel", i, a), witness)
+			}
+		}
+	}
+
+	// (5) independence of operation order
+	first := res.outs[0].canon()
+	for k, o := range res.outs[1:] {
+		if o.canon() != first {
+			r.Violation("order-dependence:suffrage-differs"+sfx,
+				fmt.Sprintf("case %d: order %v [%s] gives %s, order %v [%s] gives %s",
+					i, res.perms[0], res.how[0], first, res.perms[k+1], res.how[k+1], o.canon()),
+				map[string]any{
+					"case": i, "height": m.height, "threshold": float64(m.t10) / 10, "members": m.members,
+					"operations": c.Metas, "expels": c.EMetas, "a": res.outs[0], "b": o,
+					"order_a": res.perms[0], "order_b": res.perms[k+1], "driven_by_a": res.how[0], "driven_by_b": res.how[k+1],
+				})
+
+			break
+		}
+	}
+
+	// which single operations were recorded as applied may legitimately depend on
+	// the order (of two operations about one node the first one wins): reported
+	for _, o := range res.outs[1:] {
+		if o.Err == "" && res.outs[0].Err == "" && o.verdictCanon() != res.outs[0].verdictCanon() {
+			r.Count("info_cases_where_applied_operation_set_depends_on_order", 1)
+
+			break
+		}
+	}
+
+	return tl
+}
+
 func TestC17(t *testing.T) {
 	r := vlib.Start(t, "C17", vlib.LevelExploration)
 	defer r.Finish()
 
-	r.SetRule("case = PRNG prior state (suffrage 1..10, candidates 0..6 with expired / last-valid-height deadlines, threshold in {51,60,66.7,67,75,80,100}) + 1..24 join/candidate/disjoin/policy operations (correct, under-signed, padded with foreign / wrong-key / forged / duplicated signatures, unknown or expired candidate, wrong start, member as target, repeated targets) + 0..4 expel operations in the INIT voteproof (members, non-members, conflicting with a disjoin); the block is processed by the real processors once per permutation of its operations; distinct = case shape; non-trivial = the suffrage changed in at least one permutation")
+	r.SetRule("phase 1: case = PRNG prior state (suffrage 1..10, candidates 0..6 with expired / last-valid-height deadlines, threshold in {51,60,66.7,67,75,80,100}) + 1..24 join/candidate/disjoin/policy operations (correct, under-signed, padded with foreign / wrong-key / forged / duplicated signatures, unknown or expired candidate, wrong start, member as target, repeated targets) + 0..4 expel operations in the INIT voteproof (members, non-members, conflicting with a disjoin); the block is processed by the real processors once per permutation of its operations (8 / 24 sampled). " +
+		"phase 2 (mixed blocks): prior state with >= 3 members and >= 1 unexpired candidate + 2..7 operations mixing expel (member, candidate, expired / future window), disjoin, join and candidate operations about the same and about different nodes; joins carry genuine member signs numbering on the boundaries of the threshold clause (threshold of the n current members, threshold of the n-e members not leaving in this block, with the leaving members signing first or last); run 0 = the real DefaultProposalProcessor (expels in the INIT voteproof: the one kind order the node produces), then the operations (expels included) are pre-processed in EVERY order for <= 4 operations (kind-first orders + reverse + PRNG permutations beyond) by the loop of DefaultProposalProcessor.processOperations re-driven by the harness: one real processor per operation kind per block from the launch-style constructor, PreProcess one after another with the context returned by one handed to the next, Process of each passed operation (right away / after all PreProcess calls, alternating), real block writer and state value mergers. " +
+		"distinct = case shape (phase, members/candidates/threshold, operation kinds and variants); non-trivial = the suffrage changed in at least one permutation")
 	r.Assume("operations failing the real op.IsValid(networkID) never reach the processors (GetOperationFunc answers ErrInvalidOperationInProcessor), as in the node's pool; the oracle itself does not use IsValid: it counts distinct current members whose signature bytes are really theirs")
 	r.Assume("unexpired = candidate deadline >= block height (the convention of isaac.FilterCandidates)")
-	r.Assume("'can leave' is read as: a removed member is the target of a disjoin signed with that member's registered key or of an expel operation carried by the INIT voteproof (expel signatures are judged at voteproof validation, C03/C04, not here)")
+	r.Assume("'can leave' is read as: a removed member is the target of a disjoin signed with that member's registered key or of an expel operation of the block (expel signatures are judged at voteproof validation, C03/C04, not here)")
 	r.Assume("suffrages are compared as sets of (address, key, start) plus suffrage height")
+	r.Assume("'current members' of the threshold clause = the suffrage state the block is processed over (the suffrage height being replaced), whatever else the same block does and in whichever order")
+	r.Assume("'does not depend on operation order' quantifies over every order in which the processors can be handed the operations of a block, not only the kind order DefaultProposalProcessor produces today (it drops expel operations listed in a proposal and pre-processes the voteproof's expels last); which single operations are recorded as applied may depend on the order (the first of two about one node wins) and is not judged, the resulting suffrage is")
 
 	env, err := prig.NewEnv(r.Rand(0))
 	if err != nil {
@@ -200,14 +468,26 @@ func TestC17(t *testing.T) {
 	ncases := r.N(200, 3000)
 	nperm := r.N(8, 24)
 
-	type result struct {
-		c     *prig.Case
-		m     *model
-		outs  []outcome
-		perms [][]int
+	run := func(i int, res *result, n int, one func(k int) (perm []int, how string, out outcome)) {
+		witness := map[string]any{"case": i, "shape": res.c.Shape()}
+
+		ok := r.WithWatchdog(10*time.Minute, fmt.Sprintf("case %d", i), func() {
+			r.Guard("process", witness, func() {
+				for k := 0; k < n; k++ {
+					perm, how, out := one(k)
+					res.perms = append(res.perms, perm)
+					res.how = append(res.how, how)
+					res.outs = append(res.outs, out)
+				}
+			})
+		})
+		if !ok {
+			res.outs = nil
+		}
 	}
 
 	results := make([]*result, ncases)
+	started := time.Now()
 
 	vlib.Parallel(ncases, 16, func(i int) {
 		rng := r.Rand(1, i)
@@ -215,31 +495,24 @@ func TestC17(t *testing.T) {
 		res := &result{c: c, m: buildModel(c)}
 		results[i] = res
 
-		witness := map[string]any{"case": i, "shape": c.Shape()}
+		run(i, res, nperm, func(k int) ([]int, string, outcome) {
+			var order, eorder []int
 
-		ok := r.WithWatchdog(5*time.Minute, fmt.Sprintf("case %d", i), func() {
-			r.Guard("process", witness, func() {
-				for k := 0; k < nperm; k++ {
-					var order, eorder []int
+			switch k {
+			case 0:
+			case 1:
+				order, eorder = reverse(len(c.Ops)), reverse(len(c.Expels))
+			default:
+				order, eorder = rng.Perm(len(c.Ops)), rng.Perm(len(c.Expels))
+			}
 
-					switch k {
-					case 0:
-					case 1:
-						order, eorder = reverse(len(c.Ops)), reverse(len(c.Expels))
-					default:
-						order, eorder = rng.Perm(len(c.Ops)), rng.Perm(len(c.Expels))
-					}
+			b := c.NewBlock(order, eorder, 0)
 
-					b := c.NewBlock(order, eorder, 0)
-					res.perms = append(res.perms, b.Order)
-					res.outs = append(res.outs, process(b, []int64{1, 4, 16}[k%3]))
-				}
-			})
+			return b.Order, "DefaultProposalProcessor", process(b, []int64{1, 4, 16}[k%3])
 		})
-		if !ok {
-			res.outs = nil
-		}
 	})
+
+	r.Set("info_wall_s_phase1_workload", time.Since(started).Seconds()) // information only, never part of a verdict
 
 	var changedCases, joinsSeen, leavesSeen int
 
@@ -249,130 +522,14 @@ func TestC17(t *testing.T) {
 		}
 
 		c, m := res.c, res.m
-		changed := false
 
-		for k, o := range res.outs {
-			r.Count("blocks_processed", 1)
-
-			witness := map[string]any{
-				"case": i, "permutation": res.perms[k], "height": m.height, "threshold": float64(m.t10) / 10,
-				"members": m.members, "operations": c.Metas, "expels": c.EMetas, "result": o,
-			}
-
-			if o.PolicyChanged {
-				r.Count("blocks_policy_changed", 1)
-
-				if !m.policyOK { // outside the statement of C17 (suffrage only): reported, not judged
-					r.Count("info_policy_changed_below_threshold_of_distinct_members", 1)
-				}
-			}
-
-			switch {
-			case o.Err != "":
-				r.Count("blocks_ending_in_error", 1)
-				r.SetAdd("error_kinds", o.Err)
-
-				continue
-			case !o.Changed:
-				r.Count("blocks_suffrage_unchanged", 1)
-
-				continue
-			}
-
-			changed = true
-
-			r.Count("blocks_suffrage_changed", 1)
-
-			// (1) unique members, (2) height + 1
-			newm := map[string]string{}
-
-			for _, n := range o.Nodes {
-				f := strings.Split(n, "|")
-				if _, dup := newm[f[0]]; dup {
-					r.Violation("suffrage:duplicate-member", fmt.Sprintf("case %d: member %s twice in the resulting suffrage", i, f[0]), witness)
-				}
-
-				newm[f[0]] = f[1]
-			}
-
-			if o.Height != m.sufh+1 {
-				r.Violation("suffrage:height-not-previous-plus-one",
-					fmt.Sprintf("case %d: suffrage height %d after %d", i, o.Height, m.sufh), witness)
-			}
-
-			if len(newm) == 0 {
-				r.Count("blocks_with_empty_resulting_suffrage", 1)
-			}
-
-			// (3) who joined
-			for a, pub := range newm {
-				if _, was := m.members[a]; was {
-					if pub != m.members[a] {
-						r.Count("kept_member_key_changed", 1)
-					}
-
-					continue
-				}
-
-				joinsSeen++
-
-				r.Count("joined_nodes", 1)
-
-				why, found := m.joinWhy[a]
-				if !found {
-					why = "no-join-operation"
-				}
-
-				if why != "" {
-					r.Violation("join:"+why, fmt.Sprintf("case %d: %s joined the suffrage although %s (threshold %.1f of %d members)",
-						i, a, why, float64(m.t10)/10, m.n), witness)
-
-					continue
-				}
-
-				if cand := m.cands[a]; cand.Priv.Publickey().String() != pub {
-					r.Violation("join:member-key-differs-from-registered-candidate-key",
-						fmt.Sprintf("case %d: %s joined with key %s, registered %s", i, a, pub, cand.Priv.Publickey()), witness)
-				}
-			}
-
-			// (4) who left
-			for a := range m.members {
-				if _, still := newm[a]; still {
-					continue
-				}
-
-				leavesSeen++
-
-				switch {
-				case m.leaveOK[a] && m.expelOK[a]:
-					r.Count("removed_by_disjoin_and_expel", 1)
-				case m.leaveOK[a]:
-					r.Count("removed_by_disjoin", 1)
-				case m.expelOK[a]:
-					r.Count("removed_by_expel", 1)
-				default:
-					r.Violation("leave:removed-without-own-disjoin-or-expel",
-						fmt.Sprintf("case %d: member %s left the suffrage without a disjoin signed by its key or an expel", i, a), witness)
-				}
-			}
-		}
-
-		// (5) independence of operation order
-		first := res.outs[0].canon()
-		for k, o := range res.outs[1:] {
-			if o.canon() != first {
-				r.Violation("order-dependence:suffrage-differs",
-					fmt.Sprintf("case %d: order %v gives %s, order %v gives %s", i, res.perms[0], first, res.perms[k+1], o.canon()),
-					map[string]any{"case": i, "operations": c.Metas, "expels": c.EMetas, "a": res.outs[0], "b": o, "order_a": res.perms[0], "order_b": res.perms[k+1]})
-
-				break
-			}
-		}
+		tl := judge(r, "", i, res)
+		joinsSeen += tl.joins
+		leavesSeen += tl.leaves
 
 		r.Eval(1)
 
-		if changed {
+		if tl.changed {
 			changedCases++
 
 			r.Distinct(c.Shape())
@@ -385,7 +542,7 @@ func TestC17(t *testing.T) {
 			r.Count("op_"+k, v)
 		}
 
-		if changed && changedCases <= 5 {
+		if tl.changed && changedCases <= 4 {
 			r.Sample(map[string]any{
 				"case": i, "members": len(m.members), "candidates": len(m.cands), "threshold": float64(m.t10) / 10,
 				"operations": c.KindCounts(), "permutations": len(res.outs), "result": res.outs[0],
@@ -400,6 +557,224 @@ func TestC17(t *testing.T) {
 	if joinsSeen == 0 || leavesSeen == 0 {
 		r.Inconclusive(fmt.Sprintf("no join (%d) or no leave (%d) was ever applied by the code under test", joinsSeen, leavesSeen))
 	}
+
+	mixedPhase(r, env, run)
+}
+
+// mixedPhase: blocks whose proposal mixes expel / join / disjoin / candidate
+// operations, every pre-processing order.
+func mixedPhase(r *vlib.Run, env *prig.Env, run func(int, *result, int, func(int) ([]int, string, outcome))) {
+	const sfx = "(mixed-block-every-order)"
+
+	ncases := r.N(96, 1500)
+	nperm := r.N(12, 30)
+
+	results := make([]*result, ncases)
+	started := time.Now()
+
+	vlib.Parallel(ncases, 16, func(i int) {
+		rng := r.Rand(2, i)
+
+		// sizes: 2..4 operations (all permutations) for five cases of six, 5..7 beyond
+		nops := 2 + rng.Intn(3)
+		if nops == 2 && rng.Intn(2) == 0 {
+			nops = 3 + rng.Intn(2)
+		}
+
+		if i%6 == 5 {
+			nops = 5 + rng.Intn(3)
+		}
+
+		c, classes := genMixed(env, rng, nops)
+		res := &result{c: c, m: buildModel(c), classes: classes}
+		results[i] = res
+
+		orders, exhaustive := mixedOrders(c, rng, nperm)
+		res.exhaustive = exhaustive
+
+		// run 0: the one order the node produces, by the real DefaultProposalProcessor
+		// (proposal operations, then the expels as the voteproof lists them); then
+		// every chosen order of all operations, chained
+		run(1_000_000+i, res, 1+len(orders), func(k int) ([]int, string, outcome) {
+			if k == 0 {
+				return nil, "DefaultProposalProcessor (expels in the INIT voteproof)", process(c.NewBlock(nil, nil, 0), 4)
+			}
+
+			return orders[k-1], "chained PreProcess in this order", processChained(c, orders[k-1], []int64{1, 4, 16}[k%3], k%2 == 0)
+		})
+	})
+
+	r.Set("info_wall_s_phase2_mixed_workload", time.Since(started).Seconds()) // information only
+
+	var changedCases, joinsSeen, leavesSeen, expelBeforeJoin, joinBeforeExpel, boundaryJoins int
+
+	for i, res := range results {
+		if res == nil || len(res.outs) == 0 {
+			continue
+		}
+
+		c, m := res.c, res.m
+
+		tl := judge(r, sfx, 1_000_000+i, res)
+		joinsSeen += tl.joins
+		leavesSeen += tl.leaves
+
+		fp := "mixed|" + c.Shape()
+		if tl.changed {
+			changedCases++
+
+			r.Case(fp)
+		} else {
+			r.Eval(1)
+		}
+
+		r.Count("mixed_cases", 1)
+		r.Count("mixed_blocks_processed", len(res.outs))
+		r.Count("mixed_join_operations", m.joinOps)
+		r.Count("mixed_join_operations_eligible_by_model", m.eligible)
+		r.Count("mixed_joined_nodes", tl.joins)
+		r.Count("mixed_removed_nodes", tl.leaves)
+
+		if res.exhaustive {
+			r.Count("mixed_cases_every_permutation_run", 1)
+		} else {
+			r.Count("mixed_cases_permutations_sampled", 1)
+		}
+
+		for _, cl := range res.classes {
+			r.Count("mixed_join_signs/"+cl, 1)
+		}
+
+		for k, v := range c.KindCounts() {
+			r.Count("mixed_op_"+k, v)
+		}
+
+		// nodes that are the subject of more than one operation of the block
+		targets := map[string]map[string]bool{}
+
+		for _, ms := range [][]prig.OpMeta{c.Metas, c.EMetas} {
+			for _, o := range ms {
+				if targets[o.Target] == nil {
+					targets[o.Target] = map[string]bool{}
+				}
+
+				targets[o.Target][o.Kind] = true
+			}
+		}
+
+		same := false
+
+		for _, kinds := range targets {
+			if len(kinds) > 1 {
+				same = true
+			}
+		}
+
+		if same {
+			r.Count("mixed_cases_with_one_node_subject_of_several_operation_kinds", 1)
+		}
+
+		// joins whose member signs are below the threshold of the current members
+		// but not below the threshold of those who stay; joins at the threshold
+		// only thanks to a leaving member
+		leaving := map[string]bool{}
+
+		for a := range m.members {
+			if m.expelOK[a] || m.leaveOK[a] {
+				leaving[a] = true
+			}
+		}
+
+		nstay := m.n - len(leaving)
+
+		for _, o := range c.Metas {
+			if o.Kind != "join" {
+				continue
+			}
+
+			all, staying := map[string]bool{}, map[string]bool{}
+
+			for _, s := range o.Signs {
+				if pub, ok := m.members[s.Node]; ok && s.SigValid && s.Pub == pub {
+					all[s.Node] = true
+
+					if !leaving[s.Node] {
+						staying[s.Node] = true
+					}
+				}
+			}
+
+			switch {
+			case len(all)*1000 < m.t10*m.n && len(staying)*1000 >= m.t10*nstay && len(leaving) > 0:
+				boundaryJoins++
+
+				r.Count("mixed_joins_below_threshold_of_current_but_not_of_staying_members", 1)
+			case len(all)*1000 >= m.t10*m.n && len(staying)*1000 < m.t10*nstay:
+				boundaryJoins++
+
+				r.Count("mixed_joins_at_threshold_only_with_signs_of_leaving_members", 1)
+			}
+		}
+
+		// observed pre-processing orders: an applied expel / disjoin ahead of a join and behind it
+		for _, o := range res.outs {
+			removedAt, joinAt := -1, -1
+
+			for pos, v := range o.Verdicts {
+				f := strings.SplitN(v, ":", 5)
+
+				switch {
+				case (f[1] == "expel" || f[1] == "disjoin") && f[3] == "true" && removedAt < 0:
+					removedAt = pos
+				case f[1] == "join" && joinAt < 0:
+					joinAt = pos
+				}
+			}
+
+			switch {
+			case removedAt < 0 || joinAt < 0:
+			case removedAt < joinAt:
+				expelBeforeJoin++
+
+				r.Count("mixed_blocks_with_applied_removal_preprocessed_before_a_join", 1)
+			default:
+				joinBeforeExpel++
+
+				r.Count("mixed_blocks_with_join_preprocessed_before_applied_removal", 1)
+			}
+
+			r.SetAdd("mixed_preprocessing_kind_orders_seen", kindOrder(o.Verdicts))
+		}
+
+		if tl.changed && changedCases <= 2 {
+			r.Sample(map[string]any{
+				"phase": "mixed", "case": i, "members": len(m.members), "candidates": len(m.cands), "threshold": float64(m.t10) / 10,
+				"operations": c.KindCounts(), "permutations": len(res.outs), "every_permutation": res.exhaustive,
+				"verdicts_in_first_order": res.outs[0].Verdicts, "result": res.outs[0].canon(),
+				"join_eligibility_by_model": m.joinWhy,
+			})
+		}
+	}
+
+	r.Set("mixed_cases_with_suffrage_change", changedCases)
+
+	if joinsSeen == 0 || leavesSeen == 0 || expelBeforeJoin == 0 || joinBeforeExpel == 0 || boundaryJoins == 0 {
+		r.Inconclusive(fmt.Sprintf(
+			"mixed blocks: joins applied %d, leaves applied %d, blocks with a removal before / after a join %d / %d, joins on a threshold boundary %d: one of them never observed",
+			joinsSeen, leavesSeen, expelBeforeJoin, joinBeforeExpel, boundaryJoins))
+	}
+}
+
+// kindOrder: the kinds of the operations in the order they were pre-processed.
+func kindOrder(verdicts []string) string {
+	var b strings.Builder
+
+	for _, v := range verdicts {
+		f := strings.SplitN(v, ":", 3)
+		b.WriteByte(f[1][0])
+	}
+
+	return b.String()
 }
 
 func reverse(n int) []int {
